@@ -5,7 +5,7 @@
    (text -> Thrift value, JSON -> Thrift value, Thrift value -> text) is NOT part of this model: the converters are
    Section variables, instantiated in Check17.v. *)
 From Coq Require Import ZArith List Bool.
-From DG Require Import ThriftWire Json.
+From DG Require Import ThriftWire Json Num.
 Import ListNotations.
 Local Open Scope Z_scope.
 
@@ -357,12 +357,19 @@ End Conv.
 (* HttpMapping.Response of one annotation with the field's text: delivered somewhere, succeeds delivering nothing, or fails *)
 Inductive rresp := RDeliver (kind : Z) (key : list Z) (v : list Z) | RNothing | RFail.
 
-(* strconv.Atoi on the texts the encoders produce: optional sign, digits *)
-Definition atoi_ok (v : list Z) : bool :=
-  match v with
-  | [] => false
-  | c :: r => let ds := if (c =? 45) || (c =? 43) then r else v in nonempty ds && forallb is_digit ds && (length ds <=? 18)%nat
+(* strconv.Atoi: optional sign, decimal digits, within the int64 range *)
+Definition atoi (v : list Z) : option Z :=
+  let body := match v with c :: r => if c =? 43 then r else v | [] => v end in
+  match body with
+  | [] => None
+  | c :: _ =>
+    if (c =? 45) && negb (length body =? length v)%nat then None      (* "+-1" *)
+    else match parse_int body with
+         | Some z => if (- 2 ^ 63 <=? z) && (z <? 2 ^ 63) then Some z else None
+         | None => None
+         end
   end.
+Definition atoi_ok (v : list Z) : bool := match atoi v with Some _ => true | None => false end.
 
 Definition resp_ann (a : ann) (text : list Z) : rresp :=
   let k := a_kind a in
